@@ -336,8 +336,11 @@ def one_ranges(ctx: Ctx, cs):
     from ..model import measures as MM
     over = [dict(p_split=0.35, p_consecutive_ops=0.6, measures=(3, 6), rows=(2, 4), rejoin_before_barline=True),
             dict(p_split=0.5, p_join=0.15, p_consecutive_ops=0.8, measures=(3, 5), rows=(3, 5), rejoin_before_barline=True, max_spines=2),
-            dict(p_split=0.2, measures=(3, 7), p_midsig=0.0)][cs % 3]
-    doc, pname = make_doc(cs, 'kern_core', **over)
+            dict(p_split=0.2, measures=(3, 7), p_midsig=0.0),
+            # spines of several types: the same range again and again under different type / id / category selections
+            dict(p_split=0.1, measures=(2, 4), min_spines=2, max_spines=4, mixed=True)][cs % 4]
+    mixed = over.pop('mixed', False)
+    doc, pname = make_doc(cs, 'default' if mixed else 'kern_core', **over)
     x = doc.text(0)
     ctx.ev()
     ctx.mon('range_histories')
@@ -351,9 +354,18 @@ def one_ranges(ctx: Ctx, cs):
     rng = random.Random(cs ^ 0xC141)
     snap0 = kpx.snapshot(d)
     log = []
+    if M < 1:
+        return
+    types_ = sorted(set(doc.headers))
     for i in range(rng.randint(5, 9)):
-        a = rng.randint(1, M)
+        a = rng.randint(1, M) if not mixed else rng.choice([1, 1, M])
         kw = {'from_measure': a}
+        if mixed:
+            ctx.mon('range_exports_mixed_types')
+            if rng.random() < 0.7:
+                kw['spine_types'] = rng.choice([['**kern'], types_, rng.sample(types_, rng.randint(1, len(types_))), ['**mens'], types_[:1]])
+            if rng.random() < 0.3:
+                kw['exclude'] = [kp.TokenCategory[rng.choice(['DECORATION', 'SIGNATURES', 'BARLINES', 'COMMENTS'])]]
         if rng.random() < 0.5:
             kw['to_measure'] = rng.randint(a, M)
         if rng.random() < 0.4:
